@@ -205,7 +205,7 @@ func c04Check(env *core.Env, cc core.Case) core.Verdict {
 		b, _ := os.ReadFile(injLog)
 		_ = os.Remove(injLog)
 		if !strings.Contains(string(b), "(INJECTED)") {
-			return core.Incon("the read fault on the configuration file was not injected")
+			return core.Verdict{Status: core.Skipped, Msg: "the read fault on the configuration file could not be injected (strace unavailable?)"}
 		}
 		v.Counts["injected_read_faults"] = strings.Count(string(b), "(INJECTED)")
 	}
